@@ -38,6 +38,10 @@ class Index(list):
         return Index(out) if isinstance(key, slice) else out
 
 
+class LibTypeError(Exception):
+    """The TypeError the modelled library raises for this call (as opposed to a call the model does not cover)."""
+
+
 class Ser:
     _absint_elementwise = True
 
@@ -160,6 +164,12 @@ class Ser:
 
     def sum(self):
         return sum(a for a in self.values if not _is_nan(a))
+
+    def all(self):
+        return all(bool(a) for a in self.values)
+
+    def any(self):
+        return any(bool(a) for a in self.values if not _is_nan(a))
 
     def max(self):
         vals = [a for a in self.values if not _is_nan(a) and a is not None]
@@ -370,6 +380,9 @@ class Frame:
         return self._merge_index(other, how)
 
     def _merge_index(self, other, how):
+        if isinstance(other, (int, float, str, bool, type(None))):
+            # pandas: "other must be a DataFrame, a Series or a list of those" -> TypeError
+            raise LibTypeError("join with a scalar")
         if not isinstance(other, Frame):
             raise Unsupported("join with a non-frame")
         if set(other.cols) & set(self.cols):
